@@ -26,14 +26,14 @@ class T(param.Parameterized):
     p = param.Integer(1, bounds=(0, 5), allow_refs=True)
     q = param.Integer(1, bounds=(0, 5), allow_refs=True)
     r = param.Parameter([7, 7], allow_refs=True, nested_refs=True)
-    k = param.Integer(1, bounds=(0, 5), allow_refs=True, constant=True)
+    k = param.Number(1, bounds=(0, 5), allow_refs=True, constant=True)
 
 
 class TShared(param.Parameterized):
     p = param.Integer(1, bounds=(0, 5), allow_refs=True, per_instance=False)
     q = param.Integer(1, bounds=(0, 5), allow_refs=True, per_instance=False)
     r = param.Parameter([7, 7], allow_refs=True, nested_refs=True, per_instance=False)
-    k = param.Integer(1, bounds=(0, 5), allow_refs=True, constant=True, per_instance=False)
+    k = param.Number(1, bounds=(0, 5), allow_refs=True, constant=True, per_instance=False)
 
 
 def _inc(v):
@@ -111,6 +111,8 @@ class System:
                 setattr(self.t, a["n"], self.mkref(a["ref"]))
             elif n == "plain":
                 setattr(self.t, a["n"], [7, 7] if a["n"] == "r" else a["v"])
+            elif n == "plaineq":
+                self.t.k = float(self.t.k)
             elif n == "enterupd":
                 self.cm = self.t.param.update(**{a["n"]: a["v"]}) if a["form"] == "kw" else self.t.param.update({a["n"]: a["v"]})
                 self.cm.__enter__()
